@@ -121,7 +121,8 @@ def writer_size(u: U):
     plist = [(p, "", "base64" if (enc and i == 0) else "") for i, p in enumerate(parts)]
     boundary = u.bytes("boundary")
     mw = u.obj("MultipartWriter", {"_parts": plist, "_boundary": boundary, "_is_form_data": False, "_size": None},
-               {}, shared=False)
+               {"super.__init__": lambda self, *a, **k: None}, shared=False, real=(MP, "MultipartWriter"),
+               init=(MP, "MultipartWriter.__init__", ("mixed", "BOUNDARY"), {}))
     fsz = u.load(MP, "MultipartWriter.size")
     u.loop("multipart:MultipartWriter.size", 0, unroll=True, bound=4)
     s1 = u.call(fsz, mw)
